@@ -83,6 +83,22 @@ CLAIMS["C18"] = ("other", "MIR unwind-edge analysis (cleanup paths, drop flags b
     "entry as found. Not decided: observable state of later operations on concrete histories.",
     "DESIGN.md §4 C18", TRUST)
 
+CLAIMS["C16"] = ("proof", "signature (lifetime) rule over the type-checked API + compile-fail witnesses with compiling twins judged by rustc",
+    "Whole property, for all client programs: every exported facade method whose result carries a lifetime ties it to the single "
+    "lifetime shared by &self and the &Guard parameter (pinned references: to &self); no 'static requirement on K/V/Q/T/S; and for each "
+    "such method generated client programs that use the result (and items yielded by returned iterators) after drop(guard), "
+    "guard.refresh() or drop(collection) are rejected by rustc's borrow checker with a borrow error code only, while the twin without "
+    "the offending line compiles; non-'static keys/values/lookup keys compile. Obligations are discharged by the signature check or by "
+    "the compiler itself.",
+    "DESIGN.md §4 C16", "Trusted: rustc nightly 1.97 borrow checker and fn_sig printing; the witness generator (twins guard against ill-formed witnesses).")
+CLAIMS["C17"] = ("proof", "predicate (trait-bound) rule over the resolved call graph + compile-fail witnesses with compiling twins judged by rustc",
+    "Whole property, for all client programs: every exported function from which the call graph reaches the allocation of a value "
+    "carries Send+Sync on key and value type; the unsafe Send/Sync impls of the bin entry are conditional on K,V; lookups stay "
+    "unbounded; and for every inserting entry point (inherent, Extend, FromIterator, Clone, serde Deserialize, rayon) client programs with "
+    "a key or value that is !Send+!Sync, Send-only or Sync-only are rejected by the trait solver (E0277/E0599 only) while the thread-safe "
+    "twin compiles.",
+    "DESIGN.md §4 C17", "Trusted: rustc nightly 1.97 trait solver and predicates_of; the witness generator.")
+
 NOT_APPLICABLE = {
     "C02": "Quantifies over all operation sequences x hashers x capacities and asserts equality of run-time values (return values, "
            "contents) with a reference map; no path-, type- or call-graph-shaped clause carries it. Its only structural clause "
